@@ -526,9 +526,10 @@ def check(prop, tier):
         }
         if not res.tool_errors:
             res.coverage.update(deep_walks(res, exe, wd, prop, tier))
-        if prop in ("C01", "C09") and not res.tool_errors:
+        if prop in ("C01", "C09", "C02", "C19") and not res.tool_errors:
             # the same statement at the loop: C01 judged each time the real loop goes back to waiting (bursts, tablet and key events in one wake-up);
-            # C09 by what the loop does with the repeat requests (several events per wake-up, the last one ignored; a second firing with the same chord)
+            # C09 by what the loop does with the repeat requests (several events per wake-up, the last one ignored; a second firing with the same chord);
+            # C02 and C19 by what is down ON THE DEVICE (the fold of the writes that succeeded), with injected write failures
             import e2
             res.coverage.update(e2.loop_level(res, exe, wd, tier, prop))
         if tier == "thorough" and prop in ("C01", "C02", "C19") and not res.violations and not res.tool_errors:
